@@ -209,9 +209,6 @@ def judge_gated(rep, behaviours, trace):
     for e in core.read_ndjson(trace):
         lines.setdefault(e['t'], []).append(e)
     timeouts = [t for t, ls in lines.items() if any(e['a'] == 'Timeout' for e in ls)]
-    if timeouts:
-        raise core.Inconclusive('gated replay: a goroutine did not reach its next stop before the deadline in '
-                                'behaviour(s) %s' % timeouts[:5])
     bad = {}
     for kind, tid, line, action, name in res['fails']:
         if kind == 'I':
@@ -226,6 +223,13 @@ def judge_gated(rep, behaviours, trace):
         sig = 'C03|%s|%s|gated' % (name, action)
         rep.classify(sig, 'gated replay: first failing step: line %d action %s check %s' % (line, action, name),
                      {'kind': 'gated', 'behaviours': [b]})
+    if timeouts and not bad:
+        # a time-out is never judged; violations established on recorded steps of the real code (every behaviour has
+        # its own log and its own goroutines) stand whatever happened to other behaviours
+        raise core.Inconclusive('gated replay: a goroutine did not reach its next stop before the deadline in '
+                                'behaviour(s) %s' % timeouts[:5])
+    if timeouts:
+        rep.cov['gated_timeouts_beside_violations'] = timeouts[:20]
     return res, feats, bad
 
 
